@@ -14,7 +14,10 @@ RULE = (
     "(typing) the C03 input space (token soup, arbitrary text, damaged and well-formed descriptions x settings x entry points, "
     "with lots/aliquots parsed so tract-level flags exist), run independently; (planted) descriptions of the C01 grammar whose "
     "blocks get one trigger phrase per flag kind (exception / limitation / insofar / including / depth / wellbore wording, 20 "
-    "phrasings) appended or prepended, alone or several kinds at once, with and without segment. Non-trivial: at least one "
+    "phrasings) appended or prepended, alone or several kinds at once, with and without segment; (after_queries) descriptions lacking a "
+    "section or a Twp/Rge (fresh 1-3 digit numbers each time) parsed after 0..4 queries about the very Twp/Rge/Sec strings involved "
+    "(TRS.is_error / is_undef, Tract.trs_is_error, filter_errors on both containers, each with random twp/rge/sec/undef arguments, "
+    "each answer checked against the component model): the error flag must be there all the same. Non-trivial: at least one "
     "flag is raised. Distinct = distinct (text, config, entry)."
 )
 ASSUMPTIONS = [
@@ -181,6 +184,79 @@ def classes_typing(c):
     return out
 
 
+# error flags after the TRS strings involved have been queried through the public API ---------------------------------------
+# (an error flag is warranted by the tract at hand, whatever was asked about that Twp/Rge/Sec earlier in the process)
+
+BOOL3 = st.tuples(st.booleans(), st.booleans(), st.booleans())
+QUERY = st.tuples(st.sampled_from(["trs_is_error", "trs_is_undef", "tract_is_error", "trslist_filter_errors", "tractlist_filter_errors"]),
+                  st.sampled_from(["as_parsed", "sec_error", "twprge_error", "sec_undef", "valid"]), BOOL3, st.booleans())
+QUERY_CASE = st.fixed_dictionaries({
+    "twp": st.integers(1, 999), "rge": st.integers(1, 999), "ns": st.sampled_from("ns"), "ew": st.sampled_from("ew"), "sec": st.integers(1, 36),
+    "shape": st.sampled_from(["no_section", "no_twprge", "complete", "no_section_two_blocks", "section_word_only"]),
+    "block": _ALIQ_BLOCK, "queries": st.lists(QUERY, min_size=0, max_size=4), "config": st.sampled_from(["", "", "segment", "parse_qq", "sec_colon_cautious"]),
+})
+
+
+def query_text(c):
+    tr = f"T{c['twp']}{c['ns'].upper()}-R{c['rge']}{c['ew'].upper()}"
+    if c["shape"] == "no_section":
+        return f"{tr} {c['block']}"
+    if c["shape"] == "no_twprge":
+        return f"Sec {c['sec']}: {c['block']}"
+    if c["shape"] == "no_section_two_blocks":
+        return f"{tr} {c['block']}\nT{c['twp'] % 998 + 1}{c['ns'].upper()}-R{c['rge']}{c['ew'].upper()} {c['block']}"
+    if c["shape"] == "section_word_only":
+        return f"{tr} Section line road, {c['block']}"
+    return f"{tr} Sec {c['sec']}: {c['block']}"
+
+
+def oracle_queries(c):
+    from pytrs import TRS, Tract, TRSList, TractList
+    twprge = f"{c['twp']}{c['ns']}{c['rge']}{c['ew']}"
+    strings = {"as_parsed": None, "sec_error": f"{twprge}XX", "twprge_error": f"XXXzXXXz{c['sec']:02d}", "sec_undef": f"{twprge}__",
+               "valid": f"{twprge}{c['sec']:02d}"}
+    text = query_text(c)
+    fails = []
+    ctx = dict(text=text, config=c["config"], queries=[list(q[:2]) + [list(q[2]), q[3]] for q in c["queries"]])
+    for how, which, (tw, rg, sc), undef in c["queries"]:
+        trs = strings[which] or strings["sec_error"]
+        want_err = (tw and trs.startswith("XXXz")) or (rg and "XXXz" in trs[3:]) or (sc and trs.endswith("XX"))
+        want_und = (tw and trs.startswith("___z")) or (rg and "___z" in trs[3:]) or (sc and trs.endswith("__"))
+        if how == "trs_is_error":
+            got = bool(TRS(trs).is_error(twp=tw, rge=rg, sec=sc))
+            if got != bool(want_err):
+                fails.append(Failure("query_is_error", f"TRS({trs!r}).is_error(twp={tw}, rge={rg}, sec={sc}) = {got}", **ctx))
+        elif how == "trs_is_undef":
+            got = bool(TRS(trs).is_undef(twp=tw, rge=rg, sec=sc))
+            if got != bool(want_und):
+                fails.append(Failure("query_is_undef", f"TRS({trs!r}).is_undef(twp={tw}, rge={rg}, sec={sc}) = {got}", **ctx))
+        elif how == "tract_is_error":
+            got = bool(Tract("NE/4", trs=trs).trs_is_error(twp=tw, rge=rg, sec=sc))
+            if got != bool(want_err):
+                fails.append(Failure("query_tract_is_error", f"Tract(trs={trs!r}).trs_is_error(twp={tw}, rge={rg}, sec={sc}) = {got}", **ctx))
+        else:
+            cont = TRSList([trs, strings["valid"]]) if how == "trslist_filter_errors" else TractList([Tract("NE/4", trs=trs), Tract("W/2", trs=strings["valid"])])
+            sel = cont.filter_errors(twp=tw, rge=rg, sec=sc, undef=undef)
+            want_sel = [trs] if (want_err or (undef and want_und)) else []
+            if [x.trs for x in sel] != want_sel:
+                fails.append(Failure("query_filter_errors", f"{how}: filter_errors(twp={tw}, rge={rg}, sec={sc}, undef={undef}) on [{trs!r}, valid] selected {[x.trs for x in sel]}", **ctx))
+    d = PLSSDesc(text, config=c["config"])
+    check_flag_lists(d, "PLSSDesc", fails, ctx)
+    bad = [t.trs for t in d.tracts if "XX" in t.trs]
+    _last["flags"] = len(d.e_flags) + len(d.w_flags)
+    _last["error_tract"] = bool(bad)
+    if bad and not d.e_flags:
+        fails.append(Failure("error_tract_without_flag", f"{text!r} [{c['config']}]: tracts {bad} have an undecipherable Twp/Rge/Sec but the description has no error flag (flawed={d.desc_is_flawed})",
+                             tracts=[t.trs for t in d.tracts], **ctx))
+    if c["shape"] == "complete" and (bad or d.e_flags):
+        fails.append(Failure("spurious_error", f"{text!r} [{c['config']}]: tracts {[t.trs for t in d.tracts]} e_flags {d.e_flags}", **ctx))
+    for t in d.tracts:
+        if any(f not in t.e_flags for f in d.e_flags) or any(f not in t.w_flags for f in d.w_flags):
+            fails.append(Failure("flag_not_shared_after_queries", f"{text!r}: description flags {d.e_flags + d.w_flags} are not all on tract {t.trs}", **ctx))
+            break
+    return fails
+
+
 SUBS = [
     Sub("typing", oracle_typing, strategy=lambda tier: parsing.CASE, nontrivial=nontrivial, classes=classes_typing,
         render=parsing.render, n={"quick": 1200, "thorough": 12000}, shards={"quick": 8, "thorough": 16}, text_keys=("text",),
@@ -190,6 +266,11 @@ SUBS = [
         render=lambda c: {"text": planted_text(c), "plants": c["plants"], "config": c["config"]},
         n={"quick": 600, "thorough": 8000}, shards={"quick": 4, "thorough": 16},
         essential=tuple(f"kind={k}" for k in TRIGGERS) + ("config=copy_all", "strip=twprge", "strip=sections")),
+    Sub("after_queries", oracle_queries, strategy=lambda tier: QUERY_CASE, nontrivial=lambda c: bool(_last.get("error_tract")) and bool(c["queries"]),
+        classes=lambda c: [f"shape={c['shape']}", "error_tract" if _last.get("error_tract") else "no_error_tract"] + [f"query={q[0]}" for q in c["queries"]],
+        render=lambda c: {"text": query_text(c), "config": c["config"], "queries": [list(q[:2]) for q in c["queries"]]},
+        n={"quick": 800, "thorough": 10000}, shards={"quick": 4, "thorough": 16},
+        essential=("shape=no_section", "shape=no_twprge", "error_tract", "query=trs_is_error", "query=tractlist_filter_errors")),
 ]
 
 # thorough tier: coverage-guided fuzzing (atheris / libFuzzer) of the same oracle, see fuzz/fuzz_parse.py
